@@ -41,6 +41,7 @@ static void mode_c17(const Args &a) {
         CaseOut co(i);
         size_t D = (size_t) r.range(1, (ll) a.geti("max_dim", 300));
         if (r.chance(0.3)) D = (size_t) r.range(1, 8);
+        else if (r.chance(0.02)) D = (size_t) r.range(1000, 6000);   // long vectors: capacity / block-size thresholds
         // coordinates are B+q: the dense model is indexed by q, the library sees indices around 2^8, 2^16, 2^31, 2^32, 2^40 (narrowing bugs)
         static const size_t bases[] = {0, 0, 0, 250, 65530, 2147483640ULL, 4294967290ULL, 1099511627776ULL};
         const size_t B = bases[r.below(8)];
@@ -79,7 +80,7 @@ static void mode_c17(const Args &a) {
             for (int q = 0; q < pool && !bad; q++) if (!same(vs[q], ds[q], B, why)) fail("contents", "after '" + hist.back() + "': v" + std::to_string(q) + " " + why + " [coordinate base " + std::to_string(B) + "]");
         }
         co.hash = mix(case_seed(a.seed, "C17h", i), D); co.nontrivial = nops >= 5;
-        co.tag(D <= 8 ? "dim<=8" : D <= 64 ? "dim<=64" : "dim>64"); co.tag(B == 0 ? "base:0" : B < 70000 ? "base:2^8..2^16" : "base:>=2^31");
+        co.tag(D <= 8 ? "dim<=8" : D <= 64 ? "dim<=64" : D < 1000 ? "dim>64" : "dim>=1000"); co.tag(B == 0 ? "base:0" : B < 70000 ? "base:2^8..2^16" : "base:>=2^31");
         if ((int) (i - a.from) < a.samples) { std::string h; for (size_t q = 0; q < hist.size() && q < 12; q++) h += hist[q] + "; "; co.sample = J().num("dimension", (ll) D).num("pool", pool).num("operations", nops).str("history_prefix", h).done(); }
         co.end();
     }
